@@ -193,14 +193,23 @@ bool kirsch_bounded_kfifo_queue<T, Policies...>::try_push(value_type value) {
         return true;
       }
     } else {
-      if (queue_full(head_old, tail_old)) {
+      if (((tail_old.get() + _k) % _queue_size) == head_old.get()) {
+        // Incrementing tail would make it catch up with head, so this is only allowed once head has
+        // moved on. We must not proceed based on an outdated snapshot of head (this also covers a
+        // changed mark, i.e., a concurrent push that committed an item to the head segment) or after
+        // a failed attempt to increment head - otherwise new items would be inserted into the head
+        // segment and overtake all the items stored in the other segments.
         if (segment_empty(head_old)) {
           // increment head by k
           marked_idx new_head((head_old.get() + _k) % _queue_size, head_old.mark() + 1);
-          _head.compare_exchange_strong(head_old, new_head, std::memory_order_relaxed);
+          if (!_head.compare_exchange_strong(head_old, new_head, std::memory_order_relaxed)) {
+            continue;
+          }
         } else if (head_old == _head.load(std::memory_order_relaxed)) {
           // queue is full
           return false;
+        } else {
+          continue;
         }
       }
       // increment tail by k
